@@ -71,7 +71,14 @@ def build_harness(profile="release"):
         open(os.path.join(hdir, ".cargo", "config.toml"), "w").write(cfgt)
     p = sh(args, cwd=hdir, env=cargo_env(), check=False)
     if p.returncode != 0:
-        raise ToolError("harness build failed:\n" + p.stderr[-4000:])
+        # The window-search hook sits under its own value of the guard: if only that hook no longer compiles against the
+        # tree (the signature of the private search function changed), build without it; window cases are then skipped
+        # with a visible note (C09) and every other driver keeps working.
+        env = cargo_env()
+        env["RUSTFLAGS"] = '--cfg %s --check-cfg cfg(%s,values(none(),"window"))' % (GUARD, GUARD)
+        p2 = sh(args, cwd=hdir, env=env, check=False)
+        if p2.returncode != 0:
+            raise ToolError("harness build failed:\n" + p.stderr[-4000:])
     d = "release" if profile == "release" else profile
     return os.path.join(BUILD, "harness", d, "vh")
 
